@@ -57,6 +57,19 @@ fn attach_alias_locations_if_missing(
     reference_location: Location,
     defined_location: Location,
 ) -> Error {
+    // Errors about the stream as a whole (budget, alias-replay limits, reader failures) are not
+    // errors of the aliased value: keep them as they are so that callers can still match on them.
+    if matches!(
+        err,
+        Error::Budget { .. }
+            | Error::IOError { .. }
+            | Error::AliasReplayLimitExceeded { .. }
+            | Error::AliasExpansionLimitExceeded { .. }
+            | Error::AliasReplayStackDepthExceeded { .. }
+            | Error::AliasReplayCounterOverflow { .. }
+    ) {
+        return err;
+    }
     // If both locations are known and different, create an AliasError to show both.
     // This applies even if the error already has a location (from replayed anchor events),
     // because we want to show where the alias was used, not just where the anchor was defined.
